@@ -132,6 +132,24 @@ func (fr *Frame) execSelect(ins *ssa.Select, c *blockCtx) {
 		}
 		fr.callOrd["unblock"]++
 		g.oblige("unblock", fr.oname("unblock", fmt.Sprintf("select@%d", fr.callOrd["unblock"])), c.reach, or(alts...), "blocking select without an unblocking receive", false)
+		// further unblocks_on lines: the select must also offer a receive on one channel of each of them
+		root := fr
+		for root.parent != nil {
+			root = root.parent
+		}
+		env := root.baseEnv(c.st)
+		for gi, grp := range root.contract.UnblocksAlso {
+			var alts2 []string
+			for _, e := range grp {
+				q, _ := env.tr(e)
+				for _, st := range ins.States {
+					if st.Dir == types.RecvOnly {
+						alts2 = append(alts2, eq(fr.val(st.Chan).S, q.S))
+					}
+				}
+			}
+			g.oblige("unblock", fr.oname("unblock", fmt.Sprintf("also%d/select@%d", gi+1, fr.callOrd["unblock"])), c.reach, or(alts2...), "blocking select without a receive on the additional unblocking channel", false)
+		}
 	}
 	res := []Term{idx}
 	recvOk := g.sc.Fresh("selok", SBool)
